@@ -116,6 +116,7 @@ type Exec struct {
 	loopAssumeFn  string
 	localMerge    map[string]bool
 	localSumm     map[string]bool
+	civilN        int
 	linked        map[int]bool
 	noMerge       bool
 	formattedBasketDenoms []*smt.Term
